@@ -104,7 +104,8 @@ type uciSession struct {
 	lines  []string // everything the driver printed, in order
 	closed bool     // output channel closed
 	taken  int
-	goMark int // number of lines printed when the latest go was sent
+	goMark int          // number of lines printed when the latest go was sent
+	stall  atomic.Int64 // > 0: the reader of the driver's output does not read (a GUI that is busy), value = per-line delay in microseconds
 }
 
 func newUciSession(kind string, seed int64) *uciSession {
@@ -115,6 +116,9 @@ func newUciSession(kind string, seed int64) *uciSession {
 	s.d = d
 	go func() {
 		for l := range out {
+			if us := s.stall.Load(); us > 0 {
+				time.Sleep(time.Duration(us) * time.Microsecond) // a slow reader: the driver's output channel fills up
+			}
 			s.mu.Lock()
 			s.lines = append(s.lines, l)
 			s.mu.Unlock()
@@ -240,6 +244,10 @@ func runUciScript(kind string, seed int64, steps []string) string {
 				uciNoAnswer.Add(1)
 				emit("NO-BESTMOVE")
 			}
+		case strings.HasPrefix(st, "slowreader"): // from now on the reader takes <us> microseconds per line (0 = reads at once again)
+			us, _ := strconv.Atoi(strings.Fields(st)[1])
+			s.stall.Store(int64(us))
+			trace = append(trace, "reader")
 		case strings.HasPrefix(st, "sleep"):
 			ms, _ := strconv.Atoi(strings.Fields(st)[1])
 			time.Sleep(time.Duration(ms) * time.Millisecond)
